@@ -56,6 +56,12 @@ func newGen(profile string, seed uint64, idx int) *genState {
 	if large {
 		npool = 60 + r.IntN(50) // a collection larger than every search window
 	}
+	if profile == "c08" && idx%24 == 10 {
+		// a shard of 120..135 points: node ids run past 100 / 113 / 118, where one byte of the id equals a key suffix
+		// ('e' edges, 'q' codes, 'v' vector) -- what a cold cache enumerates from the file must not depend on the id
+		large = true
+		npool = 120 + r.IntN(16)
+	}
 	for i := 0; i < npool; i++ {
 		var u uuid.UUID
 		for j := range u {
@@ -103,7 +109,7 @@ func (g *genState) pickSchema(idx int) schemaSpec {
 		return g.schemaC03(idx)
 	case "c08", "c07", "c09":
 		g.vecMetric = "euclidean"
-		sc := schemaSpec{{path: "i", kind: ixInt}, {path: "t", kind: ixStr, caseSens: false}, {path: "tags", kind: ixStrArr, caseSens: true},
+		sc := schemaSpec{{path: "i", kind: ixInt}, {path: "t", kind: ixStr, caseSens: false}, {path: "tags", kind: ixStrArr, caseSens: idx%4 != 1},
 			{path: "f", kind: ixFloat}, {path: "txt", kind: ixText}}
 		switch idx % 3 {
 		case 0:
@@ -470,9 +476,14 @@ func (g *genState) genWrong(ix idxSpec) Val {
 	case ixFloat:
 		return []Val{vInt(3), vStr("1.5"), vF32(1.5)}[g.r.IntN(3)]
 	case ixStr, ixText:
+		if ix.kind == ixStr && g.r.IntN(4) == 0 {
+			return vStr("") // well typed, but the empty string cannot become a key of the index: refused at the flush
+		}
 		return []Val{vInt(3), vStrs("a"), vBool(false)}[g.r.IntN(3)]
 	case ixStrArr:
-		return []Val{vStr("red"), vArr(vStr("a"), vInt(1)), vInt(1)}[g.r.IntN(3)]
+		// the last one is well typed but carries an element that cannot become a key of the index (the empty string):
+		// the store refuses it when the index is flushed, so the whole batch is rejected inside the transaction
+		return []Val{vStr("red"), vArr(vStr("a"), vInt(1)), vInt(1), vStrs(g.pick(tagPool), "")}[g.r.IntN(4)]
 	default:
 		return []Val{vStr("vec"), vArr(vF64(1), vF64(2)), vInt(1)}[g.r.IntN(3)]
 	}
@@ -525,7 +536,7 @@ func (g *genState) genDoc(forUpdate bool, wrongOK bool) Val {
 	if g.large {
 		// small documents: the vector (always on insert) and an integer
 		for _, ix := range g.schema {
-			if ix.kind == ixVamana && (!forUpdate || r.IntN(2) == 0) {
+			if (ix.kind == ixVamana || (g.profile == "c08" && ix.kind == ixFlat)) && (!forUpdate || r.IntN(2) == 0) {
 				setPath(&d, ix.path, vVec(g.genVec(ix.dim)))
 			}
 			if ix.kind == ixInt && r.IntN(2) == 0 {
